@@ -366,9 +366,9 @@ def run_shard(ctx):
             continue
         # field-in-document targets get a reduced grid (each call loads a whole document)
         in_doc = ".loads:" in name
-        for pre in (GENERIC_PREFIX if not in_doc else ["", "a", "1", "1-", "1e"]):
+        for pre in (GENERIC_PREFIX if not in_doc else ["", "a", "1", "1-", "1e", "./", "/", "../", "/mnt/os/"]):
             for pump in GENERIC_ATOMS:
-                for suf in (GENERIC_SUFFIX if not in_doc else ["", "!", "a"]):
+                for suf in (GENERIC_SUFFIX if not in_doc else ["", "!", "a", "x"]):
                     families.append({"prefix": pre, "pump": pump, "suffix": suf, "target": {"kind": "callable", "name": name}})
     for sname, tname in STRUCTURES:
         if tname in hv["targets"]:
